@@ -75,6 +75,10 @@ public:
     stack_element& stack_top() {
         return stackq_.back();
     }
+    // the element of the layer above the current one (precondition: stack_size() >= 2)
+    stack_element& stack_under_top() {
+        return stackq_[stackq_.size() - 2];
+    }
     void stack_pop() {
         return stackq_.pop_back();
     }
@@ -345,10 +349,11 @@ retry_from_root:
                 // mt root is deleted, so scan end
                 return status::OK_SCAN_END;
             }
-            // L1+
+            // L1+: the layer is gone; continue in the upper layer behind the link
+            // (next_layer re-reads the upper layer's own position)
             ctx->stack_pop();
             st = &ctx->stack_top(); // sync alias
-            goto retry_from_root; // NOLINT
+            goto next_layer; // NOLINT
         }
         if (!rv.get_root()) {
             // saved-root is now not root. split?
@@ -358,9 +363,25 @@ retry_from_root:
                 ctx->stack_top().layer_root = new_mt_root;
                 goto retry_from_root; // NOLINT
             }
+            // L1+: the layer got a new root (its root node was split, or an interior root
+            // collapsed). Fetch it through the link held by the border of the upper layer and
+            // find the position again below it, instead of giving up the rest of the layer.
+            {
+                auto& up = ctx->stack_under_top();
+                link_or_value* up_lv = up.bn->get_lv_of_without_lock(
+                        up.key.get_key_slice(), up.key.get_key_length());
+                base_node* new_layer_root = (up_lv != nullptr) ? up_lv->get_next_layer() : nullptr;
+                if (new_layer_root != nullptr) {
+                    // (equal to the old pointer while the writer has not swapped the link yet:
+                    //  retry until it has, as layer 0 does with the tree root)
+                    ctx->stack_top().layer_root = new_layer_root;
+                    goto retry_from_root; // NOLINT
+                }
+            }
+            // the link itself is gone: leave the layer
             ctx->stack_pop();
             st = &ctx->stack_top(); // sync alias
-            goto next_layer; // NOLINT // or jump to entry point of this function
+            goto next_layer; // NOLINT
         }
         status check_status{};
         auto border_node_and_v =
